@@ -727,6 +727,10 @@ def r207(ctx):
         return
     # (2) invariance proof by equivariance of the rounding function
     diff = S.add(S.substitute_shift(e), e, -1)
+    if diff and S.has_fn(e, "fmod"):
+        ctx.bad(rid, node, f"the wrap formula `{short(node, 60)}` folds with fmod, the truncating remainder: its result carries the sign of the dividend, so w(d + k*L) = w(d) fails whenever the shift crosses zero - a component below -L/2 is not brought back into the box (d = -0.7 L stays -0.7 L), the minimum image exceeds half a box length, Distance((i, j)) and Distance((j, i)) differ and shifting an atom by a box vector changes the periodic order parameters. (numpy.mod / % - the floored remainder - is the periodic one.)",
+                construct="wrap expression folds with fmod", detail={"symbolic": S.show(e), "difference": S.show(diff)})
+        return
     if diff:
         raise AnalysisError(f"R-20.7: w(d + k*L) - w(d) = {S.show(diff)} could not be reduced to 0 with the equivariance rules known to the checker (cannot decide)")
     ctx.ok(rid, node, f"w(d) = {S.show(e)} satisfies w(d + k*L) = w(d) for every integer k (rounding commutes with integer shifts; L*(1/L) = 1)")
@@ -828,6 +832,8 @@ def run(ctx):
 
 
 VARIANTS = [
+    B("c20-wrap-folds-with-the-truncating-remainder", ORDERP, "    box_ilengths = 1.0 / box_lengths\n    pbcdist = np.zeros(distance.shape)\n    for i, (length, ilength) in enumerate(zip(box_lengths, box_ilengths)):\n        if np.abs(distance[i]) > 0.5 * length:\n            pbcdist[i] = distance[i] - np.rint(distance[i] * ilength) * length\n", "    pbcdist = np.zeros(distance.shape)\n    for i, length in enumerate(box_lengths):\n        half = 0.5 * length\n        if np.abs(distance[i]) > half:\n            pbcdist[i] = np.fmod(distance[i] + half, length) - half\n", "R-20.7", control=True, why="seeded C20_n"),
+    K("c20-keep-wrap-folds-with-the-floored-remainder", ORDERP, "    box_ilengths = 1.0 / box_lengths\n    pbcdist = np.zeros(distance.shape)\n    for i, (length, ilength) in enumerate(zip(box_lengths, box_ilengths)):\n        if np.abs(distance[i]) > 0.5 * length:\n            pbcdist[i] = distance[i] - np.rint(distance[i] * ilength) * length\n", "    pbcdist = np.zeros(distance.shape)\n    for i, length in enumerate(box_lengths):\n        half = 0.5 * length\n        if np.abs(distance[i]) > half:\n            pbcdist[i] = np.mod(distance[i] + half, length) - half\n", why="mod(d + L/2, L) - L/2 = d - floor(d/L + 1/2) L: periodic, differs from the rint form only exactly on the half-box boundary"),
     B("c20-puckering-centre-without-axis", ORDERP, "        center = np.mean(pos, axis=0)", "        center = np.mean(pos)", "R-20.8", control=True, why="seeded C20_m"),
     B("c20-dihedral-box-broadcast-along-rows", ORDERP, "            box = np.array(system.box[:3])\n            vector1 = pbc_dist_coordinate(vector1, box)\n            vector2 = pbc_dist_coordinate(vector2, box)\n            vector3 = pbc_dist_coordinate(vector3, box)\n", "            bonds = np.array([vector1, vector2, vector3], dtype=float)\n            box = np.array(system.box[:3])[:, np.newaxis]\n            far = np.abs(bonds) > 0.5 * box\n            bonds -= np.rint(bonds / box) * np.where(far, box, 0.0)\n            vector1, vector2, vector3 = bonds\n", "R-20.9", control=True, why="seeded C20_l"),
     B("c20-flip-skipped-for-own-velocities", ENGBASE, "        if vel is not None:\n            system.vel = vel * -1.0 if system.vel_rev else vel", "        if vel is not None and vel is not system.vel:\n            system.vel = vel * -1.0 if system.vel_rev else vel", "R-20.5", control=True, why="seeded C20_k"),
